@@ -79,6 +79,11 @@ def configs(tier, seed):
                    ['linear', 'linear', 'linear']):
         out.append(('resampling/3d/%s' % '+'.join(scheme), dict(kind='resampling', scheme=scheme)))
     out.append(('resampling/1d', dict(kind='resampling', scheme=['linear'])))
+    out.append(('resampling/1d/same-shape-other-node-placement', dict(kind='resampling', scheme=['linear'],
+                                                                     cv='same-shape')))
+    out.append(('resampling/2d/same-shape-other-node-placement', dict(kind='resampling', scheme=['linear', 'nearest'],
+                                                                     cv='same-shape')))
+    out.append(('sampling/grid-not-aliased/degenerate-axes', dict(kind='grid-alias')))
     if tier == 'thorough':
         # more nodes per axis, all 8 per-axis combinations in 3-d, all 2-d combinations outside the hull
         for scheme in ('nearest', 'linear'):
@@ -423,6 +428,33 @@ def case(ctx, kind, conv=None, dtype='float64', nd=2, scheme=None, cv=None, ford
         mesh = interp((np.array(cvs[0])[:, None], np.array(cvs[1])[None, :]))
         ctx.eq('node-reproduction(mesh)', mesh, F)
         return
+    if kind == 'grid-alias':
+        # multi-step: an element sampled from a coordinate function is updated in place; the grid of the space and
+        # later samples must not change (concrete facts; shapes with a single non-degenerate axis)
+        from symnp import proxy
+        was, proxy.STATE.armed = proxy.STATE.armed, False
+        try:
+            for shape in ((4,), (3, 1), (1, 3), (1, 4, 1), (2, 3)):
+                ndm = len(shape)
+                space = odl.uniform_discr([0.0] * ndm, [1.0] * ndm, shape)
+                before = [np.array(v, copy=True) for v in space.grid.coord_vectors]
+                for k in range(ndm):
+                    el = space.element(lambda x, k=k: x[k])
+                    el *= 0.5
+                    el += 0.125
+                    el.asarray()[...] = 0.375
+                now = space.grid.coord_vectors
+                ctx.fact('%s/grid-unchanged' % 'x'.join(map(str, shape)),
+                         all(np.array_equal(a, b) for a, b in zip(before, now)),
+                         'grid now %s, was %s' % ([list(v) for v in now], [list(v) for v in before]))
+                samp = space.element(lambda x: sum(x[j] * (j + 1) for j in range(ndm)))
+                want = sum(np.asarray(v).reshape([-1 if a == j else 1 for a in range(ndm)]) * (j + 1)
+                           for j, v in enumerate(before))
+                ctx.fact('%s/later-samples-at-the-original-nodes' % 'x'.join(map(str, shape)),
+                         np.allclose(samp.asarray(), np.broadcast_to(want, shape)))
+        finally:
+            proxy.STATE.armed = was
+        return
     if kind == 'conventions':
         cvs = CV2
         f = ctx.array('f', (3, 3), 'float64')
@@ -439,6 +471,14 @@ def case(ctx, kind, conv=None, dtype='float64', nd=2, scheme=None, cv=None, ford
             o = ctx.array('o_' + scheme, (2,), 'float64', garbage=True)
             interp(np.array(p), out=o)
             ctx.eq('%s/out=single-points' % scheme, o, single)
+            # a mesh tuple of FULL coordinate arrays that is not a tensor product (a sheared lattice)
+            m0 = np.array([[0.25, 0.75], [0.5, 1.25]])
+            m1 = np.array([[-0.5, 0.25], [1.0, 0.5]])
+            dense = interp((m0, m1))
+            ctx.eq('%s/dense-non-tensor-mesh=single-points' % scheme, dense,
+                   [interp([m0[i, j], m1[i, j]]) for i in range(2) for j in range(2)])
+            ctx.eq('%s/dense-non-tensor-mesh=point-array' % scheme, dense,
+                   interp(np.array([m0.ravel(), m1.ravel()])))
         return
     if kind == 'resampling':
         nd = len(scheme)
@@ -448,6 +488,11 @@ def case(ctx, kind, conv=None, dtype='float64', nd=2, scheme=None, cv=None, ford
         mx = [1.0, 3.0, 0.5][:nd]
         dom = odl.uniform_discr([0.0] * nd, mx, shp)
         ran = odl.uniform_discr([0.0] * nd, mx, tshp)
+        if cv == 'same-shape':
+            # same shape, same domain, different node placement: the grids do NOT coincide
+            shp = tshp = (4, 3)[:nd]
+            dom = odl.uniform_discr([0.0] * nd, mx, shp, nodes_on_bdry=True)
+            ran = odl.uniform_discr([0.0] * nd, mx, tshp)
         op = odl.Resampling(dom, ran, interp=scheme if nd > 1 else scheme[0])
         x = ctx.element(dom, 'x')
         X = np.asarray(flat(x), dtype=object).reshape(shp) if ctx.sym else x.asarray()
